@@ -35,20 +35,11 @@ theorem C14_applied_time_after_true (orc : Oracle) (hff : FaultFree orc) (m1 : M
     split
     · rw [(finish_tx _ _ _).1, (finish_tx _ _ _).2]; exact hh
     · rw [(finish_tx _ _ _).1, (finish_tx _ _ _).2, (quiet_autoStage _ _ _).clock]; exact hh
-  split
-  · obtain ⟨k, fo, _, _, eta⟩ := emitFinals_spec orc hff
-      ({ t2 with timeAfter := (applyActive m1 t2.mu.called t2.target).clock } : Tx).enters
-      (({ t2 with timeAfter := (applyActive m1 t2.mu.called t2.target).clock } : Tx).exits ++
-        ({ t2 with timeAfter := (applyActive m1 t2.mu.called t2.target).clock } : Tx).enters)
-      ((applyActive m1 t2.mu.called t2.target).emit
-        (.tFinals (applyActive m1 t2.mu.called t2.target).clock (applyActive m1 t2.mu.called t2.target).active))
-      { t2 with timeAfter := (applyActive m1 t2.mu.called t2.target).clock }
-    apply key
-    · rw [eta, k.quiet_of_false.clock]; rfl
-    · intro h; exact (fo h).1
-  · apply key
-    · rfl
-    · intro h; simp at h
+  have hta := applyTarget_timeAfter m1 t2
+  obtain ⟨g, fo, _, _, eta⟩ := runFinals_spec orc hff (applyTarget m1 t2).1 (applyTarget m1 t2).2
+  apply key
+  · rw [eta, g.quiet_of_false.clock]; exact hta
+  · intro h; exact (fo h).1
 
 /-- C14 (chain): a transition's `TimeBefore` is the machine's clock at its
     creation, i.e. the previous transition's true `TimeAfter`. -/
